@@ -293,7 +293,8 @@ func remoteVerdict(m *model, w *world, p peer.ID, a ma.Multiaddr) (tri, string) 
 
 func TestOutboundSwarm(t *testing.T) {
 	name := t.Name()
-	hx.Check(t, 1500, 30000, 0, func(rt *rapid.T) {
+	hx.Check(t, 2000, 150000, 0, func(rt *rapid.T) {
+		ex0 := relaxedUsed + excludedMasks
 		w := drawWorld(rt)
 		sc := drawOutScenario(rt, w)
 		var (
@@ -507,7 +508,7 @@ func TestOutboundSwarm(t *testing.T) {
 				}
 			}
 			if ob.ambiguous {
-				labels["ambiguous-subnet-identity"] = true
+				labels["unblock-in-other-spelling"] = true
 			}
 		})
 		var ls []string
@@ -515,6 +516,9 @@ func TestOutboundSwarm(t *testing.T) {
 			ls = append(ls, k)
 		}
 		sort.Strings(ls)
+		if relaxedUsed+excludedMasks != ex0 {
+			stats.Excluded(name) // a known-finding exclusion shaped this case
+		}
 		stats.Case(name, sc.fingerprint(w), nontrivial, ls...)
 		if stats.WantSample(name) {
 			var ts []string
